@@ -3,8 +3,9 @@
    gen_reroot_at_midpoint (Gen/Midpoint.v) is regenerated on every run from the AST of
    Tree.reroot_at_midpoint (py/dv/gen_midpoint.py), statement by statement, over the primitives of
    Model/C07GenMidPrims.v (which state the Python semantics relied upon; interface operations: the
-   distance-matrix queries, Node.distance_from_root, Tree.reseed_at, Tree.update_bipartitions - given by
-   C07Model's functions - and op_split_block, the pointer block of the method (the edge split): ONE
+   distance-matrix queries, Tree.reseed_at, Tree.update_bipartitions - given by
+   C07Model's functions; Node.distance_from_root is NOT an interface operation any more, it is compiled too,
+   section 3 - and op_split_block, the pointer block of the method (the edge split): ONE
    operation here, but its statements are compiled one by one over the heap by py/dv/gen_mutators.py
    and section 2 below proves the compiled block equal to the operation).  `self` = mkG tree rooting_flag;
    pr = the pair max_pairwise_distance_taxa() returns (an input, as in the model); fresh = the identity
@@ -13,9 +14,9 @@
    the tree (what max_pairwise_distance_taxa returns for a tree with >= 2 leaves). *)
 From Coq Require Import ZArith List Bool Permutation.
 From DV Require Import Model.PyPrims Model.Tree Model.C07Model Model.C07Spec Model.C07GenMidPrims Gen.Midpoint
-     Proofs.C07GenMidpoint Proofs.C07GenMidThms.
+     Proofs.C07GenDfr Proofs.C07GenMidpoint Proofs.C07GenMidThms.
 From DV Require Model.Heap Model.HeapOps Model.MutPrims Gen.Mutators Model.C03GenInst Model.C03Split Proofs.C03Base
-     Proofs.C03GenSplit Proofs.C07GenSplit.
+     Proofs.C03GenSplit Proofs.C07GenSplit Proofs.C07Thms Proofs.C07GenRefused.
 Import ListNotations.
 Open Scope Z_scope.
 
@@ -161,3 +162,85 @@ Theorem gen_split_block_nonvacuous :
                10 13 true true true (Heap.of_tree C03GenSplit.exs_tree None) = Heap.HOk h'.
 Proof. exact C07GenSplit.gen_split_block_hyps. Qed.
 Print Assumptions gen_split_block_nonvacuous.
+
+(* =====================================================================================================
+   3. Node.distance_from_root (wave 8).  gen_distance_from_root (Gen/Midpoint.v) is regenerated on every run
+      from the AST of Node.distance_from_root (datamodel/treemodel/_node.py), and gen_reroot_at_midpoint calls
+      IT (not a model function) to decide from which end of the longest path to walk up.  A node reference is
+      `Some [Y; P; ...; R]` (the node, its parent, ..., the seed).  No hypothesis on the lengths: any mixture of
+      None, 0 and non-zero values. *)
+
+(* the generated code IS C07Model.dfr on the chain of (identity, length) up to the seed *)
+Theorem gen_distance_from_root_equals_model :
+  forall p, p <> [] -> gen_distance_from_root (Some p) = dfr (map node_pair p).
+Proof. exact gen_dfr_eq_model. Qed.
+Print Assumptions gen_distance_from_root_equals_model.
+
+(* ... and the former interface operation node_dfr, also on the None reference (AttributeError) *)
+Theorem gen_distance_from_root_equals_node_dfr :
+  forall n, n <> Some [] -> gen_distance_from_root n = node_dfr n.
+Proof. exact gen_dfr_eq_node_dfr. Qed.
+Print Assumptions gen_distance_from_root_equals_node_dfr.
+
+(* in plain terms: a node below the seed whose own edge length is defined - zero included - is at its own
+   length plus the defined lengths of all its ancestors from the root (a zero-length terminal edge does NOT
+   make the distance 0) *)
+Theorem gen_distance_from_root_defined_length :
+  forall Y P r e, t_len Y = Some e ->
+  gen_distance_from_root (Some (Y :: P :: r)) = Ok (e + fold_right (fun A s => len0 (t_len A) + s) 0 (P :: r)).
+Proof. exact gen_dfr_defined_l. Qed.
+Print Assumptions gen_distance_from_root_defined_length.
+
+(* the hypotheses are satisfiable with a zero length: leaf A:0 below ancestors of lengths 2 and 1 *)
+Theorem gen_distance_from_root_zero_leaf_example :
+  gen_distance_from_root
+    (Some [T 3 (Some 0) None (Some 0) []; T 2 None None (Some 2) []; T 1 None None (Some 1) []; T 0 None None None []])
+  = Ok 3.
+Proof. exact gen_dfr_zero_leaf. Qed.
+Print Assumptions gen_distance_from_root_zero_leaf_example.
+
+(* =====================================================================================================
+   4. A REFUSED re-rooting changes nothing (wave 8) - for the GENERATED programs of Gen/Mutators.v.
+      Heap.hres keeps the state an exception leaves behind (HErr e h).  On every well-formed heap the
+      compiled reroot_at_edge given the SEED edge (it has no tail node) raises AttributeError and the
+      compiled to_outgroup_position given the seed raises AssertionError, and the heap left behind IS the input heap:
+      every parent pointer, child list, edge length (the seed's included) and the rooting flag.  (A source that
+      attaches the head node to the new node and assigns length2 before it touches the tail node raises the
+      same error with the seed re-parented and its length overwritten: its compiled program is not
+      HeapOps.reroot_at_edge, C03Gen's reroot_at_edge_refines and these theorems do not go through.) *)
+Theorem generated_reroot_at_edge_refused_changes_nothing :
+  forall (c : Z) (l1 l2 : option Z) (ub su : bool) (h : Heap.heap),
+  Heap.parent h c = None ->
+  C03GenInst.to_hres (Mutators.Tree_reroot_at_edge C03GenInst.HG c l1 l2 ub su h) = Heap.HErr AttrErr h.
+Proof. exact Proofs.C07GenRefused.gen_reroot_at_edge_refused_l. Qed.
+Print Assumptions generated_reroot_at_edge_refused_changes_nothing.
+
+Theorem generated_reroot_at_seed_edge_changes_nothing :
+  forall (l1 l2 : option Z) (ub su : bool) (h : Heap.heap),
+  C03Base.WF h ->
+  C03GenInst.to_hres (Mutators.Tree_reroot_at_edge C03GenInst.HG (Heap.seed h) l1 l2 ub su h) = Heap.HErr AttrErr h.
+Proof. exact Proofs.C07GenRefused.gen_reroot_at_seed_edge_l. Qed.
+Print Assumptions generated_reroot_at_seed_edge_changes_nothing.
+
+Theorem generated_to_outgroup_position_refused_changes_nothing :
+  forall (og : Z) (ub su : bool) (h : Heap.heap),
+  Heap.parent h og = None ->
+  C03GenInst.to_hres (Mutators.Tree_to_outgroup_position C03GenInst.HG og ub su h) = Heap.HErr AssertErr h.
+Proof. exact Proofs.C07GenRefused.gen_to_outgroup_refused_l. Qed.
+Print Assumptions generated_to_outgroup_position_refused_changes_nothing.
+
+Theorem generated_to_outgroup_position_seed_changes_nothing :
+  forall (ub su : bool) (h : Heap.heap),
+  C03Base.WF h ->
+  C03GenInst.to_hres (Mutators.Tree_to_outgroup_position C03GenInst.HG (Heap.seed h) ub su h) = Heap.HErr AssertErr h.
+Proof. exact Proofs.C07GenRefused.gen_to_outgroup_seed_l. Qed.
+Print Assumptions generated_to_outgroup_position_seed_changes_nothing.
+
+(* the hypothesis is satisfiable: a well-formed heap, and the refused call on it *)
+Theorem generated_refused_example :
+  C03Base.WF (Heap.of_tree C07Thms.ex_t None)
+  /\ C03GenInst.to_hres (Mutators.Tree_reroot_at_edge C03GenInst.HG (Heap.seed (Heap.of_tree C07Thms.ex_t None))
+                           (Some 512) (Some 512) false true (Heap.of_tree C07Thms.ex_t None))
+     = Heap.HErr AttrErr (Heap.of_tree C07Thms.ex_t None).
+Proof. exact Proofs.C07GenRefused.refused_example_l. Qed.
+Print Assumptions generated_refused_example.
